@@ -16,3 +16,4 @@ UNITS += [RW.unit_fixed_row_writer_init(), RW.unit_delimited_row_writer_init(), 
 UNITS += [RD.unit_delimited_rows().also("C14"), FX.unit_fixed_rows().also("C14"), VIO.unit_raw_rows()]
 from props import _groups as _G
 UNITS = _G.with_groups(PROPERTY, UNITS, _G.WRITERS, _G.VALIDATION, _G.READERS, _G.CHECKS)
+UNITS += [VIO.unit_writer_file_sweep()]
